@@ -37,15 +37,18 @@ def _report(chk, doc, out, script, rule):
 
 def run(chk):
     chk.assumptions += [
-        "statements are about Rename.rename; rename_semantics / rename_preserves_closure for PoolSum-free expressions "
-        "(all zoo models), with the intensity mentioning only private symbols (amplitude labels, summation indices)",
+        "statements are about Rename.rename; rename_preserves_closure for PoolSum-free expressions (all zoo models); "
+        "expression-level statements need the intensity to mention only private symbols (amplitude labels, summation indices)",
         "rename_preserves_closure needs the forced hypothesis that no parameter is identified with a kinematic variable; "
         "maps violating it (and maps identifying two kinematic variables) are run on purpose and reported as known findings",
-        "repeated renames: composition proved per symbol and per attribute value (rename_compose_partial), exercised in full "
-        "by chains of 1..3 renames in the correspondence run",
+        "repeated renames: rename (rename m r1) r2 = rename m (compose r1 r2) proved (rename_compose) under collected-set, "
+        "private-intensity, unrenamed-binder and injectivity side conditions; false without them (two _refuted witnesses); "
+        "chains of 1..3 arbitrary renames are exercised in the correspondence run",
+        "semantics with PoolSum nodes (rename_semantics_poolsum) under binder_safe: no bound index renamed, nothing renamed "
+        "onto a bound index; PoolSum values are evaluated in the outer environment",
     ]
     thorough = chk.tier == "thorough"
-    proofs_ok = chk.compile_chain([], ["C17_lemmas.v"], "C17.v", timeout=900)
+    proofs_ok = chk.compile_chain([], ["C17_lemmas.v", "C17_lemmas2.v"], "C17.v", timeout=900)
     n_corr, n_search = (220, 380) if thorough else (27, 30)
     if not proofs_ok and not thorough:
         n_corr, n_search = 90, 150
